@@ -434,6 +434,7 @@ func genSqlQuery(r *Rng, pool *leafPool, withPh bool) SqlQ {
 }
 
 func runC12(rep *Report, r *Rng, tier string) {
+	defer statementLifetimes(rep, "C12")
 	defer envProbes(rep, "C12", true)
 	rep.Rule = "datasets (identifier column names) x query texts rendered from random trees (0..6 group-by columns, matching nothing/everything, unknown columns) x DSN option sets {none, preload, lrucache size 0/2000, preload+lrucache}; through database/sql: Columns, ColumnTypes.DatabaseTypeName, Next/Scan, Err compared with the model's rows (newRows o Execute); non-trivial = result with at least one row other than a single zero count; distinct by (dataset, dsn, text)"
 	o := StartOracle()
@@ -503,6 +504,7 @@ func updogWriterFromRows(path string, rows []map[string]string) error {
 }
 
 func runC11(rep *Report, r *Rng, tier string) {
+	defer statementLifetimes(rep, "C11")
 	rep.Rule = "query texts with literals and placeholders (repeated, out of order, gaps) x argument lists (hostile strings, integers; too few / exact / too many) x 1..4 executions, through Prepare+Stmt.Query and direct DB.Query on file DSNs; each execution compared with the model (bind, then Execute of the bound query, then newRows); ReplacePlaceholders compared with the model's subst and the template compared before/after; non-trivial = execution returning a row other than a single zero count; distinct by (dataset, text, path, args)"
 	o := StartOracle()
 	defer o.Close()
@@ -805,6 +807,7 @@ func newDrvEnv(o *Oracle, r *Rng) *drvEnv {
 }
 
 func runC17(rep *Report, r *Rng, tier string) {
+	defer statementLifetimes(rep, "C17")
 	defer envProbes(rep, "C17", true)
 	defer cancelledStatements(rep, r, "C17")
 	rep.Rule = "histories over {sql.Open(file DSN with one of 3 option strings, pool size 0/1/2/8), Query, Prepare+Stmt.Query, Close, 16-goroutine burst on one handle} on 2 files and up to 4 handles (reopening after the last close, several handles per file, same file with different option strings); every op under a watchdog; every query compared with the model's rows; after the last close of a file an exclusive bbolt.Open must succeed within 1.5 s; non-trivial = query/burst at history position >= 2; distinct by history prefix"
@@ -1162,5 +1165,121 @@ func cancelledStatements(rep *Report, r *Rng, prop string) {
 		if want := fmt.Sprintf("ok %d", (40000+211-1-3)/211); res != want {
 			rep.Violate(Violation{Kind: "history", Signature: prop + ":" + strings.SplitN(res, ":", 2)[0], What: "prepared statement run under deadlines, all handles closed, data source reopened (dsn options " + opts + ")", Expected: want, Actual: res, Case: map[string]any{"dsn_opts": opts}})
 		}
+	}
+}
+
+// statementLifetimes: histories of prepared statements on one data source that the random cases do not reach:
+// several statements prepared from the SAME text and closed independently, three result sets of one statement open
+// at once (the pool hands the statement to several connections and retires them), placeholder numbers beyond int32,
+// and statements whose texts differ only in white space INSIDE a quoted value. Expected answers come from the library.
+func statementLifetimes(rep *Report, prop string) {
+	path := scratch("stmt-life.updog")
+	os.Remove(path)
+	rows := []map[string]string{{"c": "a  b", "k": "1"}, {"c": "a b", "k": "1"}, {"c": "a b", "k": "2"}, {"c": "a\tb", "k": "2"}, {"c": "a b", "k": "1"}, {"c": "a  b", "k": "2"}, {"c": "a  b", "k": "3"}}
+	if _, err := buildIndexFile("mem", rows, path); err != nil {
+		infra("build: %v", err)
+	}
+	defer os.Remove(path)
+	lib := func(text string) string {
+		idx, _, err := openIdx(path, false, -1)
+		if err != nil {
+			return "open-err"
+		}
+		defer idx.Close()
+		pq, err := verifhook.ParseQuery(text)
+		if err != nil {
+			return "err"
+		}
+		res := safeExecute(idx, verifhook.ToQuery(pq))
+		if strings.HasPrefix(res, "ok ") {
+			return strings.Fields(res)[1]
+		}
+		return "err"
+	}
+	count := func(q queryer, text string, args ...any) string {
+		return watchdog(20*time.Second, func() string {
+			rs, err := q.Query(text, args...)
+			if err != nil {
+				return "err"
+			}
+			defer rs.Close()
+			var n int64
+			if !rs.Next() {
+				return "norow"
+			}
+			if err := rs.Scan(&n); err != nil {
+				return "scan-err"
+			}
+			return fmt.Sprint(n)
+		})
+	}
+	viol := func(what, want, got string) {
+		rep.Violate(Violation{Kind: "history", Signature: prop + ":statement-history", What: what, Expected: want, Actual: got, Case: map[string]any{"scenario": what}})
+	}
+	for _, opts := range []string{"", "?lrucache=true&lrucachesize=100000"} {
+		db, err := sql.Open("updog", "file:"+path+opts)
+		if err != nil {
+			continue
+		}
+		// texts that differ only inside a quoted value
+		for round := 0; round < 2; round++ {
+			for _, v := range []string{"a  b", "a b", "a\tb", "a b", "a   b"} {
+				text := fmt.Sprintf("c = %q", v)
+				text = strings.ReplaceAll(text, `\t`, "\t")
+				text = strings.ReplaceAll(text, ` `, " ")
+				rep.Count("whitespace-literal-queries")
+				if got, want := count(db, text), lib(text); got != want {
+					viol(fmt.Sprintf("query %q run after other texts that differ only in white space inside the quoted value", text), want, got)
+				}
+				if st, err := db.Prepare(text); err == nil {
+					if got, want := count(stmtQueryer{st}, text), lib(text); got != want {
+						viol(fmt.Sprintf("prepared %q after other texts that differ only in white space inside the quoted value", text), want, got)
+					}
+					st.Close()
+				}
+			}
+		}
+		// two statements from one text, closed independently
+		text := `k = $1`
+		s1, e1 := db.Prepare(text)
+		s2, e2 := db.Prepare(text)
+		if e1 == nil && e2 == nil {
+			a := count(stmtQueryer{s1}, text, "1")
+			s1.Close()
+			b := count(stmtQueryer{s2}, text, "2")
+			c3 := count(stmtQueryer{s2}, text, "1")
+			s2.Close()
+			rep.Count("twin-statements")
+			if want := lib(`k = "1"`) + "," + lib(`k = "2"`) + "," + lib(`k = "1"`); a+","+b+","+c3 != want {
+				viol("two statements prepared from the same text; the first is closed, the second keeps being used", want, a+","+b+","+c3)
+			}
+		}
+		// three result sets of one statement open at once, then released (the pool retires connections)
+		if st, err := db.Prepare(text); err == nil {
+			var open []*sql.Rows
+			for k := 0; k < 3; k++ {
+				if rs, err := st.Query("1"); err == nil {
+					open = append(open, rs)
+				}
+			}
+			for _, rs := range open {
+				rs.Close()
+			}
+			got := count(stmtQueryer{st}, text, "2")
+			st.Close()
+			rep.Count("overlapping-result-sets")
+			if want := lib(`k = "2"`); got != want {
+				viol("one statement with three result sets open at once, released, then executed again", want, got)
+			}
+		}
+		// placeholder numbers that do not fit 32 bits are no placeholders at all: the text is rejected
+		for _, t := range []string{`k = $4294967297`, `k = $4294967296`, `k = $2147483648`, `k = $18446744073709551617`, `k = $0`} {
+			got := count(db, t, "1")
+			rep.Count("oversized-placeholder-texts")
+			if got != "err" {
+				viol(fmt.Sprintf("query %q with one argument", t), "err", got)
+			}
+		}
+		db.Close()
 	}
 }
